@@ -588,6 +588,10 @@ func addCases(c *fw.Ctx, e *env, r *fw.Rand) {
 			q.Set("wrap-with-directory", "true")
 			shape = "wrap"
 		}
+		if r.Chance(1, 3) {
+			q.Set("stream-channels", "false")
+			shape += "+buffered"
+		}
 		method := r.Pick("POST", "POST", "PUT")
 		e.rec.Reset()
 		e.ipfs.ResetLog()
@@ -654,14 +658,21 @@ func addCases(c *fw.Ctx, e *env, r *fw.Rand) {
 			c.Violation("C12/hijacked-request-reached-daemon/add", "the daemon received the add request", nil)
 		}
 		var puts, pins, unpins int
+		var pinnedCid, unpinnedCid cid.Cid
 		for _, cl := range calls {
 			switch cl.Name() {
 			case "IPFSConnector.BlockPut":
 				puts++
 			case "Cluster.Pin":
 				pins++
+				if pp, ok := cl.In.(*api.Pin); ok {
+					pinnedCid = pp.Cid
+				}
 			case "Cluster.Unpin":
 				unpins++
+				if pp, ok := cl.In.(*api.Pin); ok {
+					unpinnedCid = pp.Cid
+				}
 			}
 		}
 		if !valid {
@@ -679,6 +690,9 @@ func addCases(c *fw.Ctx, e *env, r *fw.Rand) {
 		}
 		if wantUnpin != (unpins == 1) {
 			c.Violation("C12/add/pin-option", fmt.Sprintf("pin=false requested=%v, unpins performed=%d", wantUnpin, unpins), nil)
+		}
+		if wantUnpin && unpins == 1 && !(unpinnedCid.Defined() && unpinnedCid.Equals(pinnedCid)) {
+			c.Violation("C12/add/pin-option-unpins-something-else", fmt.Sprintf("pin=false: the content was pinned as %s and the unpin was issued for %s (%s)", pinnedCid, unpinnedCid, shape), nil)
 		}
 	}
 }
